@@ -12,8 +12,7 @@ def r1(ctx):
     entry_flags(ctx, P, "C01.R1")
 
 
-def r2(ctx):
-    rule = "C01.R2"
+def r2(ctx, P=P, rule="C01.R2"):
     fa = ctx.real_body(NEW, [OPLOG_OPEN])
     if not need(ctx, P, rule, NEW, fa):
         return
@@ -38,12 +37,28 @@ def r2(ctx):
             ctx.ok(P, rule, "Entry.%s exempt from replay" % f, EXEMPT[f], assumed=True)
             continue
         if f not in consumers:
-            ctx.fail(P, rule, "Entry.%s is replayed" % f, "Entry has a field `%s` for which no replay consumer is known: an operation persisted in it would be lost on reopen" % f, key="C01|C01.R2|Entry.%s|no consumer" % f)
+            ctx.fail(P, rule, "Entry.%s is replayed" % f, "Entry has a field `%s` for which no replay consumer is known: an operation persisted in it would be lost on reopen" % f, key=("%s|%s|" % (P, rule)) + "Entry.%s|no consumer" % f)
             continue
         for callee, idx in consumers[f]:
             hit = [s for s in sites(fa, callee) if reads_field(fa.arg_origin(s, idx), f) and any(s in body for _, body, _ in loops)]
             ctx.check(P, rule, "replay: entry.%s reaches %s" % (f, callee.split("::")[-1]), bool(hit), "inside the entry loop, %s(arg %d) is fed from entry.%s" % (callee.split("::")[-1], idx, f),
-                      "Hypercore::new does not pass entry.%s to %s while replaying the oplog: the logged operation is not re-applied on reopen" % (f, callee), key="C01|C01.R2|%s -> %s" % (f, callee))
+                      "Hypercore::new does not pass entry.%s to %s while replaying the oplog: the logged operation is not re-applied on reopen" % (f, callee), key=("%s|%s|" % (P, rule)) + "%s -> %s" % (f, callee))
+            # ... for every entry: whether the consumer runs in an iteration of the entry loop may
+            # depend on entry.<f> itself (is it present / its elements), never on another field
+            if hit:
+                s0 = hit[0]
+                outer = sorted([(h, body) for h, body, _ in loops if s0 in body], key=lambda hb: -len(hb[1]))
+                h, body = outer[0]
+                inner = sorted([(h2, b2) for h2, b2, _ in loops if s0 in b2 and h2 != h], key=lambda hb: -len(hb[1]))
+                T = inner[0][0] if inner else s0     # a consumer inside `for x in entry.f`: the target is that loop
+                foreign = []
+                for S, must, skip in iteration_deciders(fa, h, body, T):
+                    o = fa.origin_operand(fa.blocks[S].term["discr"], S, len(fa.blocks[S].stmts))
+                    if not reads_field(o, f):
+                        foreign.append((S, term_str(o)[:80]))
+                ctx.check(P, rule, "replay: %s runs for every entry that has %s" % (callee.split("::")[-1], f), not foreign, "whether it runs in an iteration depends only on entry.%s" % f,
+                          "while replaying the oplog, %s for entry.%s is skipped depending on %s: an entry carrying %s without that is not re-applied on reopen" % (callee.split("::")[-1], f, [d for _, d in foreign], f),
+                          [loc(fa, S) for S, _ in foreign], key=("%s|%s|" % (P, rule)) + "%s -> %s|unconditional" % (f, callee))
     # the changeset built from tree_upgrade is completed and committed
     tr = sites(fa, MT_TRUNCATE)
     cm = sites(fa, MT_COMMIT)
